@@ -135,6 +135,16 @@ func (g *c18gen) window() (time.Time, time.Time) {
 	}
 	d := pick(g.r, []time.Duration{time.Nanosecond, time.Millisecond, 500 * time.Millisecond, time.Second, time.Minute, 10 * time.Minute, time.Hour, 24 * time.Hour, 7 * 24 * time.Hour, 1234567891 * time.Nanosecond})
 	end := base.Add(d)
+	switch g.r.intn(24) {
+	case 20: // up to the last instant there is
+		end = time.Unix(0, influxql.MaxTime).UTC()
+	case 21:
+		end = time.Unix(0, influxql.MaxTime-1).UTC()
+	case 22: // from the first
+		base = time.Unix(0, influxql.MinTime+1).UTC()
+	case 23:
+		base, end = time.Unix(0, influxql.MinTime+2).UTC(), time.Unix(0, influxql.MaxTime).UTC()
+	}
 	switch g.r.intn(9) {
 	case 7: // an empty window: the end is the start
 		end = base
@@ -337,7 +347,7 @@ func propC18(o *out, r *rng, thorough bool) {
 	tt := func(map[string]interface{}) bool { return true }
 	// hand-picked: every way a bound is written, next to one kept predicate
 	for _, tb := range []string{"time > 5", "time >= '2000-01-01T00:00:00Z'", "time < now()", "time > now() - 1h", "5 < time", "'2000-01-01T00:00:00Z' <= time", "now() - 1h < time", "now() > time",
-		"TIME > 5", "Time <= 10s", "\"time\" = 7", "time::tag > 5", "(time) > 5", "((time)) < now()", "5 < (time)", "time != 5", "time <> 5", "time > 5 AND time < 10", "(time > 5 AND time < 10)", "time > 1h + 1h"} {
+		"TIME > 5", "Time <= 10s", "\"tİme\" > 5", "\"TİME\" < '2000-01-01T00:00:00Z'", "5 < \"Tİme\"", "\"time\" = 7", "time::tag > 5", "(time) > 5", "((time)) < now()", "5 < (time)", "time != 5", "time <> 5", "time > 5 AND time < 10", "(time > 5 AND time < 10)", "time > 1h + 1h"} {
 		c18Seq(o, c18cond{text: tb, nonTime: tt, inClass: true}, wins(3), "bound alone")
 		c18Seq(o, c18cond{text: tb + " AND host = 'a'", nonTime: func(t map[string]interface{}) bool { return t["host"] == "a" }, inClass: true}, wins(3), "bound AND predicate")
 		c18Seq(o, c18cond{text: "host = 'a' AND " + tb, nonTime: func(t map[string]interface{}) bool { return t["host"] == "a" }, inClass: true}, wins(3), "predicate AND bound")
